@@ -901,4 +901,332 @@ theorem layout_lines_isLine {L : Layout} (h : L.ok = true) : ∀ l ∈ L.lines, 
     · obtain ⟨r, hr, hlr⟩ := List.mem_flatMap.mp hlc
       exact run_lines_isLine (h3 r hr) l hlr
 
+/-! ## a missing newline at the very end of the file -/
+
+theorem endsBsNl_of_noNl {x : Str} (hn : NoNl x) : endsBsNl x = false := by
+  cases e : endsBsNl x with
+  | false => rfl
+  | true =>
+    unfold endsBsNl at e
+    rw [List.isSuffixOf_iff_suffix] at e
+    obtain ⟨p, hp⟩ := e
+    have : '\n' ∈ x := by rw [← hp]; simp
+    exact absurd rfl (hn '\n' this).1
+
+/-- the last line as `tokenize` saves it -/
+def lastSeg (fix : Bool) (l : Str) : Str := if fix then strip l else rstrip l
+
+theorem lastSeg_nl (fix : Bool) (x : Str) : lastSeg fix (x ++ ['\n']) = lastSeg fix x := by
+  have hnl : ∀ c ∈ ['\n'], isPySpace c = true := by intro c hc; simp at hc; subst hc; decide
+  unfold lastSeg
+  cases fix with
+  | true => simp only [if_true]; exact strip_append_ws x hnl
+  | false => simp only [Bool.false_eq_true, if_false]; unfold rstrip; exact rstripBy_append_all x hnl
+
+/-- the last line of the file without its newline: it disappears when it is empty -/
+def optLine (x : Str) : List Str := if x.isEmpty then [] else [x]
+
+/-- two files that differ only in the newline at the very end -/
+def SameButEol (x : Str) (f f' : List Str) : Prop :=
+  f = f' ∨ ∃ ls, f = ls ++ [x ++ ['\n']] ∧ f' = ls ++ optLine x
+
+theorem gather_plain (fix : Bool) {l : Str} (file : List Str) (h : endsBsNl l = false) :
+    gather fix l file = ([lastSeg fix l], file) := by
+  unfold gather lastSeg; simp [h]
+
+theorem gather_eol (fix : Bool) {x : Str} (hx : LastOK x) (hn : NoNl x) :
+    ∀ (f f' : List Str) (l : Str), SameButEol x f f' →
+      (gather fix l f).1 = (gather fix l f').1 ∧ SameButEol x (gather fix l f).2 (gather fix l f').2 := by
+  intro f
+  induction f with
+  | nil =>
+    intro f' l h
+    rcases h with rfl | ⟨ls, e, _⟩
+    · exact ⟨rfl, Or.inl rfl⟩
+    · simp at e
+  | cons a rest ih =>
+    intro f' l h
+    rcases h with rfl | ⟨ls, e, rfl⟩
+    · exact ⟨rfl, Or.inl rfl⟩
+    · cases ls with
+      | nil =>
+        simp only [List.nil_append, List.cons.injEq] at e
+        obtain ⟨rfl, rfl⟩ := e
+        simp only [List.nil_append]
+        by_cases hl : endsBsNl l = true
+        · have e1 : gather fix l [x ++ ['\n']] = ([strip (rstripBs (rstrip l)), lastSeg fix (x ++ ['\n'])], []) := by
+            rw [gather]; simp only [hl, if_true]
+            rw [gather_plain fix [] (endsBsNl_false_of_lastOK hx hn)]
+          by_cases hxe : x = []
+          · subst hxe
+            have e2 : gather fix l (optLine []) = ([strip (rstripBs (rstrip l)), lastSeg fix []], []) := by
+              simp [optLine, gather, hl, lastSeg]
+            rw [e1, e2]
+            have := lastSeg_nl fix []
+            simp only [List.nil_append] at this ⊢
+            rw [this]
+            exact ⟨rfl, Or.inl rfl⟩
+          · have ho : optLine x = [x] := by
+              unfold optLine; cases x with
+              | nil => exact absurd rfl hxe
+              | cons c cs => rfl
+            have e2 : gather fix l [x] = ([strip (rstripBs (rstrip l)), lastSeg fix x], []) := by
+              rw [gather]; simp only [hl, if_true]
+              rw [gather_plain fix [] (endsBsNl_of_noNl hn)]
+            rw [e1, ho, e2, lastSeg_nl]
+            exact ⟨rfl, Or.inl rfl⟩
+        · have hl' : endsBsNl l = false := by simpa using hl
+          rw [gather_plain fix _ hl', gather_plain fix _ hl']
+          exact ⟨rfl, Or.inr ⟨[], rfl, rfl⟩⟩
+      | cons b ls' =>
+        simp only [List.cons_append, List.cons.injEq] at e
+        obtain ⟨rfl, rfl⟩ := e
+        by_cases hl : endsBsNl l = true
+        · have := ih (ls' ++ optLine x) a (Or.inr ⟨ls', rfl, rfl⟩)
+          have step : ∀ file, gather fix l (a :: file) =
+              (strip (rstripBs (rstrip l)) :: (gather fix a file).1, (gather fix a file).2) := by
+            intro file; rw [gather]; simp only [hl, if_true]
+          simp only [List.cons_append]
+          rw [step, step]
+          exact ⟨by rw [this.1], this.2⟩
+        · have hl' : endsBsNl l = false := by simpa using hl
+          rw [gather_plain fix _ hl', gather_plain fix _ hl']
+          exact ⟨rfl, Or.inr ⟨a :: ls', rfl, rfl⟩⟩
+
+theorem tokenize_eol (fix : Bool) {x : Str} (hx : LastOK x) (hn : NoNl x) (l : Str) {f f' : List Str}
+    (h : SameButEol x f f') :
+    (tokenizeG fix l f).1 = (tokenizeG fix l f').1 ∧ SameButEol x (tokenizeG fix l f).2 (tokenizeG fix l f').2 := by
+  have := gather_eol fix hx hn f f' l h
+  unfold tokenizeG
+  simp only []
+  exact ⟨by rw [this.1], this.2⟩
+
+theorem tokenize_last (fix : Bool) {x : Str} (hx : LastOK x) (hn : NoNl x) :
+    tokenizeG fix (x ++ ['\n']) [] = tokenizeG fix x [] := by
+  unfold tokenizeG
+  rw [gather_plain fix [] (endsBsNl_false_of_lastOK hx hn), gather_plain fix [] (endsBsNl_of_noNl hn), lastSeg_nl]
+
+theorem tokenize_blank (fix : Bool) : tokenizeG fix ['\n'] [] = ([], []) := by
+  cases fix <;> decide +kernel
+
+theorem tokenize_nil_file (fix : Bool) (l : Str) : (tokenizeG fix l []).2 = [] := by
+  have := tokenizeG_length fix l []
+  simpa using this
+
+theorem SameButEol.refl (x : Str) (f : List Str) : SameButEol x f f := Or.inl rfl
+
+theorem optLine_cases (x : Str) : (x = [] ∧ optLine x = []) ∨ (x ≠ [] ∧ optLine x = [x]) := by
+  cases x with
+  | nil => left; exact ⟨rfl, rfl⟩
+  | cons c cs => right; exact ⟨by simp, rfl⟩
+
+/-- the connective-continuation loop does not see the difference -/
+theorem contLoop_eol (fix : Bool) {x : Str} (hx : LastOK x) (hn : NoNl x) :
+    ∀ (n : Nat) (toks : List Str) (f f' : List Str), f.length ≤ n → SameButEol x f f' →
+      (contLoop fix toks f).1 = (contLoop fix toks f').1 ∧
+      (contLoop fix toks f).2.1 = (contLoop fix toks f').2.1 ∧
+      SameButEol x (contLoop fix toks f).2.2 (contLoop fix toks f').2.2 := by
+  intro n
+  induction n with
+  | zero =>
+    intro toks f f' hl h
+    have : f = [] := by cases f with | nil => rfl | cons a b => simp at hl
+    subst this
+    rcases h with rfl | ⟨ls, e, _⟩
+    · exact ⟨rfl, rfl, Or.inl rfl⟩
+    · simp at e
+  | succ n ih =>
+    intro toks f f' hl h
+    rcases h with rfl | ⟨ls, rfl, rfl⟩
+    · exact ⟨rfl, rfl, Or.inl rfl⟩
+    · -- one step of the loop on two files whose heads tokenize alike
+      have step : ∀ (line line' : Str) (rest rest' : List Str) (ts : List Str) (r r' : List Str),
+          tokenizeG fix line rest = (ts, r) → tokenizeG fix line' rest' = (ts, r') →
+          r.length ≤ n → SameButEol x r r' →
+          (contLoop fix toks (line :: rest)).1 = (contLoop fix toks (line' :: rest')).1 ∧
+          (contLoop fix toks (line :: rest)).2.1 = (contLoop fix toks (line' :: rest')).2.1 ∧
+          SameButEol x (contLoop fix toks (line :: rest)).2.2 (contLoop fix toks (line' :: rest')).2.2 := by
+        intro line line' rest rest' ts r r' h1 h2 hr hrel
+        cases ts with
+        | nil => rw [contLoop_blank h1, contLoop_blank h2]; exact ih toks r r' hr hrel
+        | cons t ts' =>
+          cases hres : isReserved t with
+          | true => rw [contLoop_more h1 hres, contLoop_more h2 hres]; exact ih _ r r' hr hrel
+          | false => rw [contLoop_stop h1 hres, contLoop_stop h2 hres]; exact ⟨rfl, rfl, hrel⟩
+      cases ls with
+      | nil =>
+        simp only [List.nil_append]
+        rcases optLine_cases x with ⟨rfl, ho⟩ | ⟨hxne, ho⟩
+        · rw [ho]
+          simp only [List.nil_append]
+          rw [contLoop_blank (tokenize_blank fix)]
+          exact ⟨rfl, rfl, Or.inl rfl⟩
+        · rw [ho]
+          have e := tokenize_last fix hx hn
+          have hr0 : (tokenizeG fix x []).2 = [] := tokenize_nil_file fix x
+          exact step _ _ [] [] (tokenizeG fix x []).1 [] []
+            (by rw [e]; exact Prod.ext rfl hr0) (Prod.ext rfl hr0) (by simp) (Or.inl rfl)
+      | cons line ls' =>
+        simp only [List.cons_append] at hl ⊢
+        have ht := tokenize_eol fix hx hn line (f := ls' ++ [x ++ ['\n']]) (f' := ls' ++ optLine x)
+          (Or.inr ⟨ls', rfl, rfl⟩)
+        have hlen := tokenizeG_length fix line (ls' ++ [x ++ ['\n']])
+        exact step line line (ls' ++ [x ++ ['\n']]) (ls' ++ optLine x)
+          (tokenizeG fix line (ls' ++ [x ++ ['\n']])).1
+          (tokenizeG fix line (ls' ++ [x ++ ['\n']])).2 (tokenizeG fix line (ls' ++ optLine x)).2 rfl
+          (Prod.ext ht.1.symm rfl) (by simp at hl hlen ⊢; omega) ht.2
+
+/-- the whole reading loop does not see the difference -/
+theorem mainLoop_eol (fix : Bool) {x : Str} (hx : LastOK x) (hn : NoNl x) :
+    ∀ (m : Nat) (pending : List Str) (f f' : List Str),
+      2 * f.length + (if pending = [] then 0 else 1) ≤ m → SameButEol x f f' →
+      mainLoop fix pending f = mainLoop fix pending f' := by
+  intro m
+  induction m with
+  | zero =>
+    intro pending f f' hm h
+    have hf : f = [] := by cases f with | nil => rfl | cons a b => simp at hm
+    subst hf
+    rcases h with rfl | ⟨ls, e, _⟩
+    · rfl
+    · simp at e
+  | succ m ih =>
+    intro pending f f' hm h
+    rcases h with rfl | ⟨ls, rfl, rfl⟩
+    · rfl
+    · have hrel : SameButEol x (ls ++ [x ++ ['\n']]) (ls ++ optLine x) := Or.inr ⟨ls, rfl, rfl⟩
+      cases pending with
+      | cons t ts =>
+        simp only [List.cons_ne_nil, if_false] at hm
+        cases hl : inLoad t with
+        | true =>
+          rw [mainLoop_load hl, mainLoop_load hl]
+          rw [ih [] _ _ (by simp at hm ⊢; omega) hrel]
+        | false =>
+          rw [mainLoop_cont hl, mainLoop_cont hl]
+          obtain ⟨e1, e2, e3⟩ := contLoop_eol fix hx hn _ (t :: ts) _ _ (Nat.le_refl _) hrel
+          rw [e1, e2]
+          congr 1
+          have hlen := contLoop_length fix (t :: ts) (ls ++ [x ++ ['\n']])
+          refine ih _ _ _ ?_ e3
+          rcases hlen with ⟨ha, hb | hb⟩
+          · rw [← e2, hb]; simp; omega
+          · split <;> omega
+      | nil =>
+        simp only [if_true] at hm
+        -- one step on two files whose heads tokenize alike
+        have step : ∀ (line line' : Str) (rest rest' : List Str) (ts : List Str) (r r' : List Str),
+            tokenizeG fix line rest = (ts, r) → tokenizeG fix line' rest' = (ts, r') →
+            2 * r.length + 1 ≤ m → SameButEol x r r' →
+            mainLoop fix [] (line :: rest) = mainLoop fix [] (line' :: rest') := by
+          intro line line' rest rest' ts r r' h1 h2 hr hrel'
+          cases ts with
+          | nil => rw [mainLoop_blank h1, mainLoop_blank h2]; exact ih [] r r' (by simp; omega) hrel'
+          | cons t ts' =>
+            rw [mainLoop_toks h1, mainLoop_toks h2]
+            exact ih (t :: ts') r r' (by simp; omega) hrel'
+        cases ls with
+        | nil =>
+          simp only [List.nil_append]
+          rcases optLine_cases x with ⟨rfl, ho⟩ | ⟨hxne, ho⟩
+          · rw [ho]
+            simp only [List.nil_append]
+            rw [mainLoop_blank (tokenize_blank fix)]
+          · rw [ho]
+            have e := tokenize_last fix hx hn
+            have hr0 : (tokenizeG fix x []).2 = [] := tokenize_nil_file fix x
+            exact step _ _ [] [] (tokenizeG fix x []).1 [] []
+              (by rw [e]; exact Prod.ext rfl hr0) (Prod.ext rfl hr0) (by simp at hm ⊢; omega) (Or.inl rfl)
+        | cons line ls' =>
+          simp only [List.cons_append] at hm ⊢
+          have ht := tokenize_eol fix hx hn line (f := ls' ++ [x ++ ['\n']]) (f' := ls' ++ optLine x)
+            (Or.inr ⟨ls', rfl, rfl⟩)
+          have hlen := tokenizeG_length fix line (ls' ++ [x ++ ['\n']])
+          exact step line line (ls' ++ [x ++ ['\n']]) (ls' ++ optLine x)
+            (tokenizeG fix line (ls' ++ [x ++ ['\n']])).1
+            (tokenizeG fix line (ls' ++ [x ++ ['\n']])).2 (tokenizeG fix line (ls' ++ optLine x)).2 rfl
+            (Prod.ext ht.1.symm rfl) (by simp at hm hlen ⊢; omega) ht.2
+
+/-! reading a text whose last line lacks the newline -/
+
+theorem splitLines_last {x : Str} (hn : NoNl x) : splitLines x = optLine x := by
+  cases x with
+  | nil => rfl
+  | cons c cs =>
+    have : ∀ (y : Str), (∀ d ∈ y, d ≠ '\n') → y ≠ [] → splitLines y = [y] := by
+      intro y
+      induction y with
+      | nil => intro _ h; exact absurd rfl h
+      | cons d ds ih =>
+        intro hy _
+        have hd : (d == '\n') = false := by simpa using hy d (List.mem_cons_self ..)
+        rw [splitLines, hd]
+        simp only [Bool.false_eq_true, if_false]
+        cases ds with
+        | nil => simp [splitLines]
+        | cons e es =>
+          rw [ih (fun z hz => hy z (List.mem_cons_of_mem _ hz)) (by simp)]
+    rw [this _ (fun d hd => (hn d hd).1) (by simp)]
+    rfl
+
+theorem fileLines_noeol {ls : List Str} {x : Str} (h : ∀ l ∈ ls, IsLine l) (hn : NoNl x) :
+    fileLines (ls.flatten ++ x) = ls ++ optLine x := by
+  unfold fileLines univNl
+  have hcr : ∀ c ∈ ls.flatten ++ x, c ≠ '\r' := by
+    intro c hc
+    rcases List.mem_append.mp hc with hc | hc
+    · obtain ⟨l, hl, hcl⟩ := List.mem_flatten.mp hc
+      obtain ⟨b, rfl, hb⟩ := h l hl
+      rcases List.mem_append.mp hcl with h1 | h1
+      · exact (hb c h1).2
+      · simp at h1; subst h1; decide
+    · exact (hn c hc).2
+  rw [univNlAux_of_noCR hcr]
+  clear hcr
+  induction ls with
+  | nil => simpa using splitLines_last hn
+  | cons l ls ih =>
+    obtain ⟨b, rfl, hb⟩ := h l (List.mem_cons_self ..)
+    rw [List.flatten_cons, List.append_assoc, List.append_assoc, List.singleton_append,
+      splitLines_line (fun c hc => (hb c hc).1), ih (fun y hy => h y (List.mem_cons_of_mem _ hy))]
+    simp
+
+
+/-- all runs of a layout, in file order -/
+def Layout.runs (L : Layout) : List Run := L.pre ++ L.cmds.flatMap (fun c => c.head :: c.conts)
+
+theorem layout_lines_runs (L : Layout) : L.lines = L.runs.flatMap Run.lines := by
+  unfold Layout.lines Layout.runs
+  rw [List.flatMap_append]
+  congr 1
+  induction L.cmds with
+  | nil => rfl
+  | cons c cs ih => simp [List.flatMap_cons, Cmd.lines, ih]
+
+theorem layout_runs_ok {L : Layout} (h : L.ok = true) : ∀ r ∈ L.runs, r.ok = true := by
+  simp only [Layout.ok, Bool.and_eq_true, List.all_eq_true] at h
+  obtain ⟨hpre, hcmds⟩ := h
+  intro r hr
+  unfold Layout.runs at hr
+  rcases List.mem_append.mp hr with hr | hr
+  · exact (hpre r hr).1
+  · obtain ⟨c, hc, hrc⟩ := List.mem_flatMap.mp hr
+    obtain ⟨h1, _, h3, _⟩ := cmd_facts (hcmds c hc)
+    rcases List.mem_cons.mp hrc with rfl | hrc
+    · exact h1
+    · exact h3 r hrc
+
+/-- the lines of a layout with at least one run: everything up to the last physical line, and that line -/
+theorem layout_lines_last {L : Layout} (h : L.ok = true) :
+    L.lines = [] ∨ ∃ ls x, L.lines = ls ++ [x ++ ['\n']] ∧ LastOK x ∧ NoNl x := by
+  rw [layout_lines_runs]
+  rcases List.eq_nil_or_concat L.runs with e | ⟨rs, r, e⟩
+  · left; rw [e]; rfl
+  · right
+    have hr : r.ok = true := layout_runs_ok h r (by rw [e, List.concat_eq_append]; simp)
+    obtain ⟨hx, hn, _⟩ := ending_facts hr
+    refine ⟨rs.flatMap Run.lines ++ r.mids.map midLine, r.lastText, ?_, hx, hn⟩
+    rw [e, List.concat_eq_append, List.flatMap_append]
+    simp [Run.lines]
+
 end Ioflo.Lex
